@@ -68,6 +68,8 @@ def gen_cases(tier, seed):
             for pos_chunk in range(4 if q else 1):
                 yield "double_sub", {"net": net, "ver": ver, "len": ln, "salt": rng.getrandbits(32), "sample": 6000 if q else 0,
                                      "chunk": pos_chunk}
+    for i in range(30 if q else 400):
+        yield "cli", {"salt": rng.getrandbits(32), "net": NETS[i % 3], "ver": [0, 1, 16, 2][i % 4], "fmt": ["raw", "hex", "bin"][i % 3]}
     for i in range(20 if q else 400):
         yield "arbitrary", {"salt": rng.getrandbits(32), "n": 500}
     for i in range(10 if q else 200):
@@ -77,7 +79,7 @@ def gen_cases(tier, seed):
 def required(tier):
     return {"encode.decided": 1500, "encode.class.len2-5": 100, "encode.class.zeros32_v0": 3, "neg.decided": 40000,
             "neg.ref_accepts": 30, "neg.class.version_char_outside": 50, "neg.class.version_only": 10,
-            "neg.class.non_ascii": 500, "vectors.checked": 20, "neg.class.const_swap": 20, "neg.class.padding": 20}
+            "neg.class.non_ascii": 500, "vectors.checked": 20, "neg.class.const_swap": 20, "neg.class.padding": 20, "cli.addr": 25}
 
 
 def exhaustive(tier, counts):
@@ -302,6 +304,27 @@ def run_case(kind, params, ctx):
         for cls, s in muts:
             _predicates(ctx, s, rb.decode_segwit(s), cls)
         ctx.nontrivial()
+        return
+    if kind == "cli":
+        from . import clihelp
+        import json as _json
+        net, ver, fmt = params["net"], params["ver"], params["fmt"]
+        ln = rng.choice([20, 32]) if ver == 0 else rng.choice([2, 20, 32, 39, 40])
+        prog = clihelp.edgy(rng, ln)
+        exp = rb.encode_segwit(rb.NET_HRP[net], ver, prog)
+        r = clihelp.run(["addr", "--wv", str(ver), "-N", net, clihelp.fmt_flag(fmt)], clihelp.rep(prog, fmt))
+        ctx.count("cli.addr")
+        ctx.seen("cliaddr", (net, ver, prog, fmt))
+        if not r["ok"] or r["out"] != exp:
+            ctx.violation(f"cli/addr-wrong/v{'0' if ver == 0 else 'n'}/len{ln}", f"bits addr --wv {ver} -N {net} ({fmt}, program {prog.hex()}) printed {r['out'][:90]!r} (ret {r['ret']!r}), reference {exp!r}")
+            return
+        r2 = clihelp.run(["bech32", "--decode"], exp)
+        try:
+            d = _json.loads(r2["out"].decode())
+        except Exception:
+            d = None
+        if not d or (d.get("witness_version"), d.get("witness_program")) != (ver, prog.hex()):
+            ctx.violation("cli/bech32-decode-wrong", f"bits bech32 --decode {exp!r} printed {r2['out'][:100]!r}")
         return
     if kind == "arbitrary":
         for i in range(params["n"]):
